@@ -9,7 +9,7 @@
    not by a theorem (see evidence.unproved_clauses). *)
 From Coq Require Import List ZArith Bool.
 From SC.gen Require Import SevTable NullTable.
-From SC Require Import FileSev FileSev_Proofs.
+From SC Require Import FileSev FileSev_Proofs RecRead RecRead_Proofs.
 Import ListNotations.
 Local Open Scope Z_scope.
 
@@ -86,6 +86,31 @@ Example c03_complex_example :
   complex_sev SEVERITY_NULL [(SEVERITY_WARNING, [(SEVERITY_WARNING, false)]); (SEVERITY_NULL, [(SEVERITY_NULL, false)]); (SEVERITY_WARNING, [(SEVERITY_WARNING, true)])] = SEVERITY_WARNING /\
   (* a derived attribute and another one of the same part complain *)
   complex_sev SEVERITY_NULL [(SEVERITY_WARNING, [(SEVERITY_WARNING, true); (SEVERITY_WARNING, false)])] = SEVERITY_WARNING.
+Proof. vm_compute. repeat split. Qed.
+
+(* the attribute loop of SDAI_Application_instance::STEPread (coq/RecRead.v): whatever attributes of the class are
+   redefining ones (they take no parameter) and wherever they stand, a record of good values is read clean exactly
+   when it has as many parameters as the class has other attributes; too few and too many are both reported *)
+Theorem c03_right_parameter_count_clean : forall empty_sev attrs sevs,
+  Forall (fun s => s = SEVERITY_NULL) sevs -> length sevs = explicit_count attrs ->
+  record_sev empty_sev attrs (params sevs) = SEVERITY_NULL.
+Proof. exact right_count_clean. Qed.
+Print Assumptions c03_right_parameter_count_clean.
+
+Theorem c03_wrong_parameter_count_reported : forall empty_sev attrs sevs,
+  Forall (fun s => s = SEVERITY_NULL) sevs -> length sevs <> explicit_count attrs ->
+  record_sev empty_sev attrs (params sevs) <= SEVERITY_WARNING.
+Proof. exact wrong_count_reported. Qed.
+Print Assumptions c03_wrong_parameter_count_reported.
+
+Example c03_count_example :
+  let attrs := [false; false; true; false] in          (* DCARRIER: load, note, [redeclared load], extra *)
+  let n := SEVERITY_NULL in
+  record_sev (fun _ => n) attrs (params [n; n; n]) = SEVERITY_NULL /\
+  record_sev (fun _ => n) attrs (params [n; n]) = SEVERITY_WARNING /\
+  record_sev (fun _ => n) attrs (params [n; n; n; n]) = SEVERITY_INPUT_ERROR /\
+  record_sev (fun _ => n) [false; false; true] (params [n; n]) = SEVERITY_NULL /\
+  record_sev (fun _ => n) [false; false; true] (params [n]) = SEVERITY_WARNING.
 Proof. vm_compute. repeat split. Qed.
 
 Example c03_example :
